@@ -497,6 +497,9 @@ class EvalMixin:
             if self.spec:
                 raise ContractError('attribute %s of opaque value in spec' % name)
             return VExternal('<opaque>.' + name, obj)
+        if isinstance(obj, VExternal) and obj.self_obj is None:
+            # attribute of an external class/module object: an external too
+            return VExternal(obj.name + '.' + name)
         if isinstance(obj, VFunc) and name == '__name__':
             return SStr(obj.node.name)
         if default is not None:
